@@ -146,14 +146,96 @@ type expect struct {
 	retain   bool
 }
 
+type retMsg struct {
+	tag     int
+	payload string
+	qos     int
+}
+
+type willMsg struct {
+	topic   string
+	payload string
+	tag     int
+	qos     int
+	retain  bool
+}
+
 type refBroker struct {
 	sessions map[string]*mSession // stored sessions by client id
 	bySlot   map[int]*mSession    // session of the connection in each slot
 	live     map[int]bool
+	retained map[string]retMsg
+	wills    map[int]*willMsg // will of the live connection in each slot
 }
 
 func newRefBroker() *refBroker {
-	return &refBroker{sessions: map[string]*mSession{}, bySlot: map[int]*mSession{}, live: map[int]bool{}}
+	return &refBroker{sessions: map[string]*mSession{}, bySlot: map[int]*mSession{}, live: map[int]bool{},
+		retained: map[string]retMsg{}, wills: map[int]*willMsg{}}
+}
+
+// publish applies one application message to the model: retained store, live
+// fan-out (expectations are appended to pending), offline queues.
+func (rb *refBroker) publish(sl *Slots, pending map[*Peer][]expect, topic string, qos int, retain bool, payload string, tag int) {
+	if retain {
+		if len(payload) > 0 {
+			rb.retained[topic] = retMsg{tag: tag, payload: payload, qos: qos}
+		} else {
+			delete(rb.retained, topic)
+		}
+	}
+	seen := map[*mSession]bool{}
+	for s, ms := range rb.bySlot {
+		if !rb.live[s] || seen[ms] {
+			continue
+		}
+		cs := capSet(qos, ms, topic)
+		if len(cs) == 0 {
+			continue
+		}
+		seen[ms] = true
+		pending[sl.Cur[s]] = append(pending[sl.Cur[s]], expect{tag: tag, topic: topic, payload: payload, qos: cs})
+	}
+	for _, ms := range rb.sessions {
+		if seen[ms] {
+			continue
+		}
+		live := false
+		for s, m2 := range rb.bySlot {
+			if m2 == ms && rb.live[s] {
+				live = true
+			}
+		}
+		if live {
+			continue
+		}
+		cs := capSet(qos, ms, topic)
+		if len(cs) == 0 || qos == 0 {
+			continue // QoS 0 publishes are not kept for offline sessions
+		}
+		opt := true
+		for q := range cs {
+			if q > 0 {
+				opt = false
+			}
+		}
+		ms.queue = append(ms.queue, expect{tag: tag, topic: topic, payload: payload, qos: map[int]bool{qos: true}, optional: opt})
+	}
+}
+
+// end ends the live connection of a slot; abnormal endings publish the will.
+func (rb *refBroker) end(sl *Slots, pending map[*Peer][]expect, slot int, clean bool) {
+	if !rb.live[slot] {
+		return
+	}
+	rb.live[slot] = false
+	wl := rb.wills[slot]
+	delete(rb.wills, slot)
+	if ms := rb.bySlot[slot]; ms != nil && !ms.stored {
+		delete(rb.bySlot, slot)
+	}
+	if wl != nil && !clean {
+		rb.publish(sl, pending, wl.topic, wl.qos, wl.retain, wl.payload, wl.tag)
+	}
 }
 
 // capSet is the set of admissible delivery QoS values.
@@ -211,24 +293,33 @@ func runC06(t *testing.T, p *core.Plan) *core.Result {
 }
 
 func runC06Strict(w *World, sl *Slots, p *core.Plan, res *core.Result) {
+	runStrict(w, sl, p, res, "C06")
+}
+
+// runStrict executes the plan item by item, runs the system to quiescence
+// after each and compares what every peer received with the reference broker.
+func runStrict(w *World, sl *Slots, p *core.Plan, res *core.Result, prop string) {
 	rb := newRefBroker()
 	seenUpTo := map[*Peer]int{}
 	pending := map[*Peer][]expect{} // expectations per connection since the last check
-	deliveries, pubs := 0, 0
+	deliveries, pubs, retainedReplays, willsPublished := 0, 0, 0, 0
 	for i, it := range p.Items {
 		// model first (it needs the state before the item)
 		switch it.K {
 		case "connect":
-			// take over a live connection with the same id
+			// take over a live connection with the same id: it ends abnormally
 			if it.S != "" {
 				for s, ms := range rb.bySlot {
 					if rb.live[s] && ms.cid == it.S && s != it.P {
-						rb.live[s] = false
-						if !ms.stored {
-							delete(rb.bySlot, s)
+						if rb.wills[s] != nil {
+							willsPublished++
 						}
+						rb.end(sl, pending, s, false)
 					}
 				}
+			}
+			if rb.live[it.P] {
+				continue // the slot is in use: the generator does not do this
 			}
 			var ms *mSession
 			clean := it.A == 1
@@ -258,10 +349,30 @@ func runC06Strict(w *World, sl *Slots, p *core.Plan, res *core.Result) {
 				pending[cur] = append(pending[cur], e)
 			}
 			ms.queue = nil
+			if it.C != 0 {
+				wq := (it.C - 1) % 3
+				wr := (it.C-1)/3 == 1
+				topic := "will/" + fmt.Sprint(it.P)
+				if len(it.L) > 0 {
+					topic = Topics[it.L[0]%len(Topics)]
+				}
+				tg := 900000 + cur.Idx
+				rb.wills[it.P] = &willMsg{topic: topic, payload: string(MsgPayload(tg, 0)), tag: tg, qos: wq, retain: wr}
+			}
 		case "sub":
 			if ms := rb.bySlot[it.P]; ms != nil && rb.live[it.P] {
 				for j := 0; j+1 < len(it.L); j += 2 {
 					ms.subs[Filters[it.L[j]%len(Filters)]] = it.L[j+1] % 3
+				}
+				// retained replay: per filter of the packet, every matching retained message
+				for j := 0; j+1 < len(it.L); j += 2 {
+					f := Filters[it.L[j]%len(Filters)]
+					for topic, rm := range rb.retained {
+						if model.Matches(f, topic) {
+							retainedReplays++
+							pending[cur] = append(pending[cur], expect{tag: rm.tag, topic: topic, payload: rm.payload, qos: capSet(rm.qos, ms, topic), retain: true})
+						}
+					}
 				}
 			}
 		case "unsub":
@@ -274,53 +385,20 @@ func runC06Strict(w *World, sl *Slots, p *core.Plan, res *core.Result) {
 			if rb.live[it.P] {
 				pubs++
 				pl := string(MsgPayload(it.D, it.C))
-				seen := map[*mSession]bool{}
-				// live connections
-				for s, ms := range rb.bySlot {
-					if !rb.live[s] || seen[ms] {
-						continue
-					}
-					cs := capSet(it.A%3, ms, it.S)
-					if len(cs) == 0 {
-						continue
-					}
-					seen[ms] = true
-					pending[sl.Cur[s]] = append(pending[sl.Cur[s]], expect{tag: it.D, topic: it.S, payload: pl, qos: cs})
+				tag := it.D
+				retain := it.B == 1
+				if it.B == 2 {
+					pl, retain, tag = "", true, -1
 				}
-				// offline stored sessions
-				for _, ms := range rb.sessions {
-					if seen[ms] {
-						continue
-					}
-					live := false
-					for s, m2 := range rb.bySlot {
-						if m2 == ms && rb.live[s] {
-							live = true
-						}
-					}
-					if live {
-						continue
-					}
-					cs := capSet(it.A%3, ms, it.S)
-					if len(cs) == 0 || it.A%3 == 0 {
-						continue // QoS 0 publishes are not kept for offline sessions
-					}
-					opt := true
-					for q := range cs {
-						if q > 0 {
-							opt = false
-						}
-					}
-					ms.queue = append(ms.queue, expect{tag: it.D, topic: it.S, payload: pl, qos: map[int]bool{it.A % 3: true}, optional: opt})
-				}
+				rb.publish(sl, pending, it.S, it.A%3, retain, pl, tag)
 			}
-		case "disconnect", "drop", "close":
-			if rb.live[it.P] {
-				rb.live[it.P] = false
-				if ms := rb.bySlot[it.P]; ms != nil && !ms.stored {
-					delete(rb.bySlot, it.P)
-				}
+		case "disconnect":
+			rb.end(sl, pending, it.P, true)
+		case "drop", "close":
+			if rb.live[it.P] && rb.wills[it.P] != nil {
+				willsPublished++
 			}
+			rb.end(sl, pending, it.P, false)
 		}
 		w.Settle()
 		// quiescence oracle: exactly the predicted PUBLISH packets arrived
@@ -335,13 +413,15 @@ func runC06Strict(w *World, sl *Slots, p *core.Plan, res *core.Result) {
 			exp := pending[pr]
 			pending[pr] = nil
 			deliveries += len(got)
-			judgeExact(res, "C06", pr, got, exp, fmt.Sprintf("after item %d (%s)", i, it.String()))
+			judgeExact(res, prop, pr, got, exp, fmt.Sprintf("after item %d (%s)", i, it.String()))
 		}
 	}
 	res.Nontrivial = deliveries >= 1 && pubs >= 2
 	res.Count("publishes", int64(pubs))
 	res.Count("deliveries", int64(deliveries))
-	res.State = fmt.Sprintf("%d/%d", len(rb.sessions), deliveries)
+	res.Count("retained_replays_expected", int64(retainedReplays))
+	res.Count("wills_expected", int64(willsPublished))
+	res.State = fmt.Sprintf("%d/%d/%d", len(rb.sessions), deliveries, len(rb.retained))
 }
 
 // capSetTag recomputes the admissible QoS of a queued message at dequeue time.
@@ -366,7 +446,7 @@ func judgeExact(res *core.Result, prop string, pr *Peer, got []*packet.Publish, 
 		tag := TagOf(g.Message.Payload)
 		found := -1
 		for i, e := range exp {
-			if !used[i] && e.tag == tag {
+			if !used[i] && e.tag == tag && (tag >= 0 || e.topic == g.Message.Topic && len(g.Message.Payload) == 0) {
 				found = i
 				break
 			}
